@@ -2374,6 +2374,7 @@ fn parse_lambda_implicit<'a>(
     );
 
     // Consume the variable.
+    let variable_source_range = token_source_range(tokens, next);
     let (variable, next) =
         consume_token_1!(cache, cache_key, tokens, next, Identifier, "a variable");
 
@@ -2410,7 +2411,7 @@ fn parse_lambda_implicit<'a>(
                 group: false,
                 variant: Variant::Lambda(
                     SourceVariable {
-                        source_range: token_source_range(tokens, start),
+                        source_range: variable_source_range,
                         name: variable,
                     },
                     true,
